@@ -19,6 +19,7 @@ Record case := {
   o_state_eq : bool;      (* digest of bank+evm+wasm+oracle stores unchanged (after StateDB commit) *)
   o_core_eq : bool;       (* the same digest ignoring the unibi balances of caller and precompile account *)
   o_oog_panic : bool;     (* the recovered Go panic value was sdk.ErrorOutOfGas *)
+  o_cost : option Z;      (* gas the same call consumes when given ample gas (forwarded - handed back), if it succeeds then *)
   o_mint_panic : bool     (* the recovered Go panic was sdkmath's "integer overflow" under bank.MintCoins *)
 }.
 
@@ -59,4 +60,5 @@ Definition case_method (F : facts) (c : case) : option method_facts := selected 
 
 Definition violates (F : facts) (c : case) : bool :=
   c_reached c && negb (Pb (c_kind c) (c_value c) (c_gas c) (case_method F c) (o_class c) (o_left c) (o_state_eq c) (o_core_eq c)
-        && Pb_nested (c_kind c) (case_method F c) (o_class c) (o_state_eq c)).
+        && Pb_nested (c_kind c) (case_method F c) (o_class c) (o_state_eq c)
+        && Pb_gas (o_class c) (c_gas c) (o_left c) (o_cost c)).
